@@ -204,6 +204,19 @@ def parse_rvalue(s):
             return ("tuple", [])
         items = split_top(inner)
         return ("tuple", [parse_operand(x) for x in items])
+    # closure aggregate: {closure@file:l:c: l:c} { x: op, .. }   (captured environment)
+    if s.startswith("{closure@"):
+        k = s.index("}")
+        name = s[:k + 1]
+        rest = s[k + 1:].strip()
+        fields = {}
+        if rest.startswith("{") and rest.endswith("}"):
+            body = rest[1:-1].strip()
+            if body:
+                for item in split_top(body):
+                    kk, v = item.split(":", 1)
+                    fields[kk.strip()] = parse_operand(v)
+        return ("adt", name, None, fields)
     # ADT aggregate:  Name { f: op, .. }  |  Name::<T>::Variant(op, ..)  |  Name(op)
     m = re.match(r"([A-Za-z_][\w:<>, \[\];&']*?)\s*\{(.*)\}$", s)
     if m:
@@ -231,6 +244,8 @@ def parse_rvalue(s):
             return ("adt", s[:j].strip(), None, [parse_operand(x) for x in split_top(inner)] if inner else [])
     if re.match(r"[A-Za-z_<][\w:<>, \[\];&'()]*::[A-Za-z_]\w*$", s):
         return ("adt", s, None, [])
+    if re.match(r"[A-Z]\w*$", s):
+        return ("adt", s, "unit", [])
     return ("raw", s)
 
 
